@@ -11,7 +11,7 @@ from ..core import Ctx
 from ..envs import EnvA
 from ..tables import routing as T
 from ..tables import scheduling as TS
-from .C01 import check_literals, mask_root
+from .C01 import check_literals, mask_root, bound_state_exact
 
 FLOOR = 92
 EXPLANATION = (
@@ -111,6 +111,7 @@ def run(ctx: Ctx):
         sl, root = mask_root(env, family)
         ctx.fn(sl.fi)
         check_literals(ctx, "C05", env, sl, root, T.MASK[cname], "mask", "tighter")
+        bound_state_exact(ctx, "C05.f", env, T.MASK[cname], "tighter")
         if cname == "SVRPEnv":
             # the documented pruning covers *pointless* moves.  In SVRP depot -> depot is the hand-over to the next technician:
             # closing the depot because the vehicle stands at the depot forbids `this technician stays idle`, which can be optimal
@@ -128,6 +129,7 @@ def run(ctx: Ctx):
             # slice-wise in-place refinements: decided per column class by truth table (shared with C01.p)
             from .C01 import mdcpdp_mask_classes
             mdcpdp_mask_classes(ctx, env, "tighter")
+    wait_not_pruned_by_default(ctx)
     old = T.BOOL_CELLS
     try:
         T.BOOL_CELLS = TS.BOOL_CELLS
@@ -146,9 +148,77 @@ def run(ctx: Ctx):
         ctx.fn(sl.fi)
         root = sl.cell("action_mask")
         check_literals(ctx, "C05", env, sl, root, TS.FFSP, "mask", "tighter")
+        ffsp_idle_allowed(ctx, sl, root)
         extra_rules(ctx, env, sl, root, TS.FFSP, TS.BOOL_CELLS)
     finally:
         T.BOOL_CELLS = old
+
+
+def wait_not_pruned_by_default(ctx: Ctx):
+    """C05.g job shop: keeping a machine idle although an operation could start is NOT a pointless move -- the optimum may need
+    it (delay schedules).  The wait action may be closed only when nothing is in process (waiting would not change the state).
+    `mask_no_ops` closes it for every unfinished instance; the obligation is judged for the constructor's DEFAULT of that flag."""
+    import ast
+    from ..model import AnalysisError
+    cls = ctx.repo.get_class("rl4co/envs/scheduling/fjsp/env.py", "FJSPEnv")
+    ini, gm = cls.methods.get("__init__"), cls.methods.get("get_action_mask")
+    if ini is None or gm is None:
+        raise AnalysisError("FJSPEnv.__init__ / get_action_mask not found")
+    ctx.fn(gm)
+    a = ini.node.args
+    names = [x.arg for x in a.args]
+    defaults = dict(zip(names[len(names) - len(a.defaults):], a.defaults))
+    flag = None
+    for n in ast.walk(ini.node):
+        if isinstance(n, ast.Assign) and isinstance(n.targets[0], ast.Attribute) and isinstance(n.value, ast.Name) and n.value.id in defaults \
+                and isinstance(defaults[n.value.id], ast.Constant) and isinstance(defaults[n.value.id].value, bool):
+            for i in [x for x in ast.walk(gm.node) if isinstance(x, ast.If)]:
+                t = i.test
+                neg = isinstance(t, ast.UnaryOp) and isinstance(t.op, ast.Not)
+                t0 = t.operand if neg else t
+                if isinstance(t0, ast.Attribute) and isinstance(t0.value, ast.Name) and t0.value.id == "self" and t0.attr == n.targets[0].attr:
+                    flag = (n.targets[0].attr, defaults[n.value.id].value, i, neg)
+    if flag is None:
+        raise AnalysisError("FJSPEnv.get_action_mask: no branch on a boolean constructor flag found")
+    attr, dflt, branch, neg = flag
+    taken = branch.body if (dflt != neg) else branch.orelse
+    reads = {c.slice.value for st in taken for c in ast.walk(st) if isinstance(c, ast.Subscript) and isinstance(c.slice, ast.Constant) and isinstance(c.slice.value, str)}
+    ok = "job_in_process" in reads
+    ctx.ob("C05.g", "FJSPEnv.get_action_mask:wait-open-while-a-machine-is-busy", ok, gm.loc,
+           f"default {attr}={dflt}: the wait column is computed from {sorted(reads)}" +
+           ("" if ok else " only -- waiting is closed for every unfinished instance, so only non-delay schedules are reachable and the optimum can be cut off (JSSP inherits this)"),
+           construct="FJSPEnv.get_action_mask:wait-closed-by-default")
+
+
+def ffsp_idle_allowed(ctx: Ctx, sl, root):
+    """C05.h flexible flow shop with unrelated machines: leaving the offered machine idle is not a pointless move while another
+    machine of the stage can still take the job (it may be much faster).  The wait column must not be forced shut in the
+    configuration `all remaining jobs of the stage are available, instance unfinished` -- there the env dispatches whatever
+    machine comes first in its fixed order."""
+    from ..model import AnalysisError
+    cats = [n for n in vg.walk(root) if nf._fn(n) == "torch.cat" and len(nf._seq_items(n.args[1]) or []) == 2]
+    if len(cats) != 1:
+        raise AnalysisError(f"FFSPEnv._update_step_state: expected cat((job columns, wait column)), found {len(cats)}")
+    wait = nf._seq_items(cats[0].args[1])[-1]
+
+    def assume(n):
+        x = nf.strip(n, True)
+        if x.op == "cell0" and x.args[1] == "done":
+            return False
+        if x.op == "meth" and x.args[1] == "any":
+            return False              # no job upstream, no job still being processed upstream
+        if x.op in ("phi", "ifexp"):
+            vals = {assume(a) for a in x.args[1:]}
+            return False if vals == {False} else None
+        if x.op == "meth" and x.args[1] in ("squeeze", "unsqueeze", "view", "reshape"):
+            return assume(x.args[0])
+        return None
+    v = nf.kleene(wait, assume)
+    ok = v is not False
+    ctx.ob("C05.h", "FFSPEnv:idle-allowed-when-all-jobs-are-available", ok, sl.where,
+           f"wait column {vg.show(wait, 4)[:110]} evaluates to {v} when every remaining job of the stage is available and the instance is unfinished" +
+           ("" if ok else ": the offered machine MUST take a job, although machines are unrelated and a faster one may be offered next -- schedules that leave it idle (possibly all optimal ones) are not reachable"),
+           construct="FFSPEnv._update_step_state:forced-dispatch")
 
 
 def run_thorough(ctx: Ctx):
